@@ -651,10 +651,16 @@ def desc_probe(payload):
             ann = f":'{rate}'" if rate else ''
             parts.append(f'{name}{ann}={d}')
         bus = payload.get('bus', {}).get(str(len(res)))
-        src = 'def f(' + ', '.join(parts) + '):\n    Out.kr(' + (bus if bus else '0') + ', 0.5)\n'
+        inb = payload.get('inbus', {}).get(str(len(res)))       # [bus expression, channels, 'kr'|'ar'] or None
+        if inb:
+            src = ('def f(' + ', '.join(parts) + f'):\n    x = In.{inb[2]}({inb[0]}, {inb[1]})\n'
+                   f'    Out.{inb[2]}(' + (bus if bus else '0') + ', x)\n')
+        else:
+            src = 'def f(' + ', '.join(parts) + '):\n    Out.kr(' + (bus if bus else '0') + ', 0.5)\n'
         ns = {}
-        from sc3.synth.ugens.inout import Out
+        from sc3.synth.ugens.inout import Out, In
         ns['Out'] = Out
+        ns['In'] = In
         try:
             exec(src, ns)
             sd = SynthDef('probe', ns['f'])
@@ -666,6 +672,9 @@ def desc_probe(payload):
                         'desc_names': list(desc.control_names),
                         'out_start': [str(o.starting_channel) if isinstance(o.starting_channel, str) else fmt_frac(o.starting_channel)
                                       for o in desc.outputs],
+                        'outs': [[o.rate, o.channels, o.type.__name__] for o in desc.outputs],
+                        'ins': [[i.rate, i.channels, str(i.starting_channel) if isinstance(i.starting_channel, str) else fmt_frac(i.starting_channel),
+                                 i.type.__name__] for i in desc.inputs],
                         'desc': {n: [c.index, c.rate, ([fmt_frac(v) for v in c.default_value] if isinstance(c.default_value, list) else fmt_frac(c.default_value))]
                                  for n, c in desc.control_dict.items()}})
         except Exception as ex:
